@@ -357,8 +357,9 @@ class HashSeedEngine(Engine):
                 "hits": hits, "profiles": profiles, "categories": ["CatA", "CatB"], "rules": "\n".join(text)}
 
     def _gen_pipeline(self, rng) -> Dict[str, Any]:
-        from sim.world.pipeline import (DETECTION_PROFILES, DOMAIN_PROFILES, MAIN_DOMAINS, PFAM_PROFILES, T2PKS_PROFILES,
-                                        module_layout, terpene_profiles)
+        from sim.world.pipeline import (DETECTION_PROFILES, DOMAIN_PROFILES, MAIN_DOMAINS, MITE_ENTRIES, PFAM_PROFILES,
+                                        RESFAM_PROFILES, T2PKS_PROFILES, TIGR_PROFILES, extras_profiles,
+                                        module_layout, rre_profiles, smcog_profiles, terpene_profiles)
         records = []
         hits = []
         domain_hits = []
@@ -502,6 +503,56 @@ class HashSeedEngine(Engine):
                     if start + span < aa:
                         terpene_hits.append({"cds": name, "profile": profile["name"], "start": start, "end": start + span,
                                              "bitscore": profile["cutoff"] + rng.choice([50, 50, 200]), "evalue": 1e-40})
+        all_genes = [gene for record in records for gene in record["genes"]]
+
+        def gene_hits(names: List[str], per_gene: List[int], scores: List[float], spans: List[int],
+                      starts: List[int]) -> List[Dict[str, Any]]:
+            """ hits of one database over all genes; equal starts and scores on purpose """
+            table: List[Dict[str, Any]] = []
+            for gene in all_genes:
+                aa = sum(e - b for b, e in gene["parts"]) // 3
+                for _ in range(rng.choice(per_gene)):
+                    start = rng.choice(starts)
+                    end = start + rng.choice(spans)
+                    if end >= aa:
+                        continue
+                    hit = {"cds": gene["name"], "profile": rng.choice(names), "start": start, "end": end,
+                           "bitscore": rng.choice(scores), "evalue": 1e-20}
+                    # the same domain of one profile is never reported twice
+                    if not any(all(o[k] == hit[k] for k in ("cds", "profile", "start", "end")) for o in table):
+                        table.append(hit)
+            return table
+        # TIGRFam annotation of the genes in regions (same machinery as Pfam, another database, no overlap filter)
+        tigr_hits: List[Dict[str, Any]] = []
+        if rng.random() < 0.25:
+            extra += ["--tigrfam"]
+            tigr_hits = gene_hits(sorted(TIGR_PROFILES), [0, 1, 1, 2], [28.0, 45.0, 45.0], [30, 45], [2, 10, 10, 40])
+        # gene functions: smCOGs, resistance, 'extras' (best hit per gene after refinement), MITE (best identity)
+        smcog_hits: List[Dict[str, Any]] = []
+        resfam_hits: List[Dict[str, Any]] = []
+        extras_hits: List[Dict[str, Any]] = []
+        mite_hits: List[Dict[str, Any]] = []
+        if rng.random() < 0.3:
+            extra += ["--enable-genefunctions"]
+            smcog_hits = gene_hits([p["name"] for p in smcog_profiles()], [0, 1, 2, 3], [120.0, 120.0, 300.0], [40, 55],
+                                   [2, 2, 30])
+            resfam_hits = gene_hits(sorted(RESFAM_PROFILES), [0, 0, 1, 2], [60.0, 60.0, 90.0], [40, 55], [2, 2, 30])
+            known_extras = extras_profiles()
+            for hit in gene_hits([p["name"] for p in known_extras], [0, 1, 1, 2], [0.0], [40, 55], [2, 2, 30]):
+                cutoff = next(p["cutoff"] for p in known_extras if p["name"] == hit["profile"])
+                hit["bitscore"] = cutoff + rng.choice([-5.0, 0.0, 20.0, 20.0])     # below, at and above the cutoff
+                extras_hits.append(hit)
+            for gene in all_genes:
+                for entry in rng.sample(sorted(MITE_ENTRIES), rng.choice([0, 0, 1, 2])):
+                    mite_hits.append({"cds": gene["name"], "entry": entry, "start": 1, "end": 100, "identity": rng.choice([65.0, 80.0, 80.0]),
+                                      "bitscore": rng.choice([150.0, 200.0]), "evalue": 1e-50})
+        # RREFinder on the genes of RiPP protoclusters: cutoff and minimum length are settings, hits sit at and
+        # around both
+        rre_hits: List[Dict[str, Any]] = []
+        if any(hit["profile"] in ("LANC_like", "Lant_dehydr_N", "Lant_dehydr_C") for hit in hits) and rng.random() < 0.7:
+            extra += ["--rre", "--rre-cutoff", rng.choice(["25.0", "30.0"]), "--rre-minlength", rng.choice(["50", "60"])]
+            rre_hits = gene_hits([p["name"] for p in rre_profiles()], [0, 1, 2, 2], [24.0, 25.0, 30.0, 30.0, 42.0],
+                                 [45, 50, 60, 75], [2, 2, 20])
         # sideloaded annotations: from the command line (a subregion around named genes, or one explicit subregion)
         sideload_cli: List[str] = []
         plain = [gene for record in records for gene in record["genes"] if len(gene["parts"]) == 1]
@@ -517,7 +568,9 @@ class HashSeedEngine(Engine):
                 sideload_cli += ["--sideload-simple", f"{record['id']}:{max(0, gene[0] - 50)}-{min(len(record['seq']), gene[1] + 50)}"]
         return {"records": records, "hits": hits, "sideload_cli": sideload_cli,
                 "domain_hits": {"nrpspksdomains.hmm": domain_hits, "ksdomains.hmm": subtype_hits,
-                                "Pfam-A.hmm": pfam_hits, "t2pks.hmm": t2pks_hits, "all_profiles.hmm": terpene_hits},
+                                "Pfam-A.hmm": pfam_hits, "t2pks.hmm": t2pks_hits, "all_profiles.hmm": terpene_hits,
+                                "TIGRFam.hmm": tigr_hits, "smcogs.hmm": smcog_hits, "Resfams.hmm": resfam_hits,
+                                "extras.hmm": extras_hits, "RREFam.hmm": rre_hits, "mite.fasta": mite_hits},
                 "domain_lengths": lengths, "extra_args": extra}
 
     # ------------------------------------------------------------ children
